@@ -196,10 +196,20 @@ func c12Envelope(c *mc.Ctx, k c12Env, withStream bool) {
 			ldw := bufiox.NewDefaultWriter(lsink)
 			lbw := thrift.NewBufferWriter(ldw)
 			var all []byte
+			// every header carries its own name (same length, different content): a name that still points into the
+			// reader's buffer shows up as a later header's name once all 13 are compared at the end
+			nameOf := func(i int) string {
+				if len(name) == 0 {
+					return name
+				}
+				b := []byte(name[i%len(name):] + name[:i%len(name)])
+				b[0] = byte('A' + i)
+				return string(b)
+			}
 			for i := 0; i < 13; i++ {
-				lbw.WriteMessageBegin(name, k.Type, k.Seq+int32(i))
+				lbw.WriteMessageBegin(nameOf(i), k.Type, k.Seq+int32(i))
 				ldw.Flush()
-				all = ref.MessageBegin(all, name, k.Type, k.Seq+int32(i))
+				all = ref.MessageBegin(all, nameOf(i), k.Type, k.Seq+int32(i))
 			}
 			lbw.Recycle()
 			if !bytes.Equal(lsink.Got, all) {
@@ -208,15 +218,23 @@ func c12Envelope(c *mc.Ctx, k c12Env, withStream bool) {
 			}
 			lr := bufiox.NewDefaultReader(NewEnvReader(all, k.Env).Src())
 			lbr := thrift.NewBufferReader(lr)
+			var names [13]string
 			for i := 0; i < 13; i++ {
 				gn, gt, gs, err := lbr.ReadMessageBegin()
-				if err != nil || gn != name || gt != k.Type&0xffff || gs != k.Seq+int32(i) {
-					bad("long-lived-reader", "header %d of 13 read through one buffered reader (Release after each): (name eq=%v, type %d, seq %d, %v)", i+1, gn == name, gt, gs, err)
+				if err != nil || gn != nameOf(i) || gt != k.Type&0xffff || gs != k.Seq+int32(i) {
+					bad("long-lived-reader", "header %d of 13 read through one buffered reader (Release after each): (name eq=%v, type %d, seq %d, %v)", i+1, gn == nameOf(i), gt, gs, err)
 					return
 				}
+				names[i] = gn
 				lr.Release(nil)
 			}
 			lbr.Recycle()
+			for i := 0; i < 13; i++ {
+				if names[i] != nameOf(i) {
+					bad("long-lived-reader-name-kept", "the method name of header %d of 13, correct when it was read, changed after later headers were read through the same buffered reader (Release after each): now %q, want %q", i+1, trunc40(names[i]), trunc40(nameOf(i)))
+					return
+				}
+			}
 		}
 		in := append(append([]byte{}, want...), 0x7e)
 		gn, gt, gs, l, err := B.ReadMessageBegin(in)
@@ -691,4 +709,11 @@ func init() {
 			}
 		},
 	})
+}
+
+func trunc40(s string) string {
+	if len(s) > 40 {
+		return s[:40]
+	}
+	return s
 }
